@@ -1613,7 +1613,11 @@ class TaskPool:
             # can't be complete
             return False
 
-        if itask.identity == self.stop_task_id:
+        if (
+            itask.identity == self.stop_task_id
+            and itask.state(TASK_STATUS_SUCCEEDED)
+        ):
+            # (stop after the stop task has succeeded)
             self.stop_task_finished = True
 
         if cylc.flow.flags.cylc7_back_compat:
